@@ -215,70 +215,129 @@ structure POut where
   rest : List SResp
   deriving Repr
 
-/-- failure before the fork: everything opened so far and every file handed over is closed -/
-def failBefore (calls : List SCall) (owned : List Nat) (r : Res) (p : Pipes) (st : Option (Nat × Nat)) (rs : List SResp) : POut :=
-  ⟨calls ++ closeAll owned, r, p, st, rs⟩
-
 def pipeFds (o : Option (Nat × Nat)) : List Nat := match o with | some (r, w) => [r, w] | none => []
+
+/-- the steps `os_start` takes before the fork, each of which may fail -/
+inductive Acq
+  | statusPipe                     -- `posix::pipe()` for the launch-status channel
+  | cloexecStatusR | cloexecStatusW
+  | check (ok : Bool) (r : Res)    -- a test that issues no system call (invalid combination, NUL byte)
+  | streamPipe (i : Nat)           -- `prepare_pipe` for stream `i`
+  | forkStep
+  deriving Repr
+
+/-- what the attempt holds while it runs: RAII makes every early return release exactly `owned` -/
+structure AState where
+  calls : List SCall := []
+  owned : List Nat := []           -- descriptors to be closed if the attempt fails (handed-over files included)
+  got : List Nat := []             -- ghost: every descriptor a `pipe()` answer has handed to the attempt
+  status : Option (Nat × Nat) := none
+  pipes : Pipes := {}              -- stream pipes that were set up completely
+  marked : List Nat := []          -- descriptors on which close-on-exec was set successfully
+  deriving Repr
+
+def setPipe (p : Pipes) (i : Nat) (v : Option (Nat × Nat)) : Pipes :=
+  if i = 0 then { p with pin := v } else if i = 1 then { p with pout := v } else { p with perr := v }
+
+structure AOut where
+  s : AState
+  fail : Option Res
+  rest : List SResp
+  deriving Repr
+
+def statusR (s : AState) : Nat := (s.status.getD (0, 0)).1
+def statusW (s : AState) : Nat := (s.status.getD (0, 0)).2
+
+/-- record the outcome of `prepare_pipe` for stream `i` -/
+def applyStream (i : Nat) (s : AState) (o : List SCall × Option (Nat × Nat) × Option Nat × List SResp) : AOut :=
+  ⟨{ s with calls := s.calls ++ o.1,
+            owned := s.owned ++ pipeFds o.2.1,
+            got := s.got ++ pipeFds o.2.1,
+            pipes := if o.2.2.1 = none then setPipe s.pipes i o.2.1 else s.pipes,
+            marked := s.marked ++ (if o.2.2.1 = none then
+                        (match o.2.1 with | some (r, w) => [if i == 0 then w else r] | none => []) else []) },
+   o.2.2.1.map .err, o.2.2.2⟩
+
+/-- one step; `fail = some r` = the step failed with result `r` (the state still records what was
+    issued and opened, so that the cleanup can be computed from it) -/
+def acquire (a : Acq) (s : AState) (rs : List SResp) : AOut :=
+  match a with
+  | .statusPipe =>
+    if s.status.isSome then ⟨s, some .stuck, rs⟩ else
+    (match rs with
+     | [] => ⟨{ s with calls := s.calls ++ [.pipe] }, some .stuck, []⟩
+     | .err e :: rs => ⟨{ s with calls := s.calls ++ [.pipe] }, some (.err e), rs⟩
+     | .fds sr sw :: rs =>
+       ⟨{ s with calls := s.calls ++ [.pipe], owned := s.owned ++ [sr, sw], got := s.got ++ [sr, sw], status := some (sr, sw) }, none, rs⟩
+     | _ :: rs => ⟨{ s with calls := s.calls ++ [.pipe] }, some .stuck, rs⟩)
+  | .cloexecStatusR =>
+    (match s.status with
+     | none => ⟨s, some .stuck, rs⟩
+     | some (sr, _) =>
+       ⟨{ s with calls := s.calls ++ (cloexec sr rs).1,
+                 marked := s.marked ++ (if (cloexec sr rs).2.1 = none then [sr] else []) },
+        (cloexec sr rs).2.1.map .err, (cloexec sr rs).2.2⟩)
+  | .cloexecStatusW =>
+    (match s.status with
+     | none => ⟨s, some .stuck, rs⟩
+     | some (_, sw) =>
+       ⟨{ s with calls := s.calls ++ (cloexec sw rs).1,
+                 marked := s.marked ++ (if (cloexec sw rs).2.1 = none then [sw] else []) },
+        (cloexec sw rs).2.1.map .err, (cloexec sw rs).2.2⟩)
+  | .check ok r => ⟨s, if ok then none else some r, rs⟩
+  | .streamPipe i => applyStream i s (streamPipe (i == 0) rs)
+  | .forkStep =>
+    (match rs with
+     | [] => ⟨{ s with calls := s.calls ++ [.fork] }, some .stuck, []⟩
+     | .err e :: rs => ⟨{ s with calls := s.calls ++ [.fork] }, some (.err e), rs⟩
+     | _ :: rs => ⟨{ s with calls := s.calls ++ [.fork] }, none, rs⟩)
+
+def acquireAll : List Acq → AState → List SResp → AOut
+  | [], s, rs => ⟨s, none, rs⟩
+  | a :: as, s, rs =>
+    match (acquire a s rs).fail with
+    | some r => ⟨(acquire a s rs).s, some r, (acquire a s rs).rest⟩
+    | none => acquireAll as (acquire a s rs).s (acquire a s rs).rest
+
+/-- the pre-fork steps of `os_start` for this configuration, in source order -/
+def stagesOf (c : Cfg) : List Acq :=
+  [.statusPipe, .cloexecStatusR, .cloexecStatusW,
+   .check (!(c.sout = .merge && c.serr = .merge)) .logic,
+   .check (!(c.sin = .merge)) .logic] ++
+  (if c.sin = .pipe then [.streamPipe 0] else []) ++
+  (if c.sout = .pipe then [.streamPipe 1] else []) ++
+  (if c.serr = .pipe then [.streamPipe 2] else []) ++
+  [.check (!c.nul) (.err EINVAL), .forkStep]
+
+/-- what the parent does with the answer to the status read (`calls` = everything issued so far,
+    the read included) -/
+def afterRead (c : Cfg) (s : AState) (calls : List SCall) : List SResp → POut
+  | .nbytes 0 _ :: rs' => ⟨calls ++ [.close (statusR s)], .ok, s.pipes, s.status, rs'⟩
+  | .nbytes 4 e :: rs' =>
+    -- the child could not exec: reap it (also when detached), then drop everything
+    ⟨calls ++ [.waitpid] ++ closeAll (statusR s :: parentEnds c s.pipes), .err e, s.pipes, s.status, rs'.drop 1⟩
+  | .nbytes _ _ :: rs' =>
+    ⟨calls ++ [.close (statusR s)] ++ (if c.detached then [] else [.waitpid]) ++ closeAll (parentEnds c s.pipes), .logic, s.pipes, s.status, rs'⟩
+  | .err e :: rs' =>
+    ⟨calls ++ [.close (statusR s)] ++ (if c.detached then [] else [.waitpid]) ++ closeAll (parentEnds c s.pipes), .err e, s.pipes, s.status, rs'⟩
+  | rs' => ⟨calls, .stuck, s.pipes, s.status, rs'⟩
+
+/-- the parent after a successful fork: release the child ends and the status write end, read the
+    status, and clean up if the child reported a failure -/
+def afterFork (c : Cfg) (s : AState) (rs : List SResp) : POut :=
+  afterRead c s (s.calls ++ closeAll (ownedEnds c s.pipes) ++ [.close (statusW s), .readStatus (statusR s)])
+    (rs.drop ((ownedEnds c s.pipes).length + 1))
 
 /-- `Popen::create` up to and including the status read and the cleanup of a failed launch.
     `rs` = the answers to the parent's calls, in order. -/
 def parentRun (c : Cfg) (rs : List SResp) : POut :=
   if c.argvEmpty then ⟨[], .logic, {}, none, rs⟩ else
-  -- status pipe
-  match rs with
-  | [] => ⟨[.pipe], .stuck, {}, none, []⟩
-  | .err e :: rs => failBefore [.pipe] (cfgFiles c) (.err e) {} none rs
-  | .ok :: rs | .val _ :: rs | .nbytes _ _ :: rs | .started :: rs => ⟨[.pipe], .stuck, {}, none, rs⟩
-  | .fds sr sw :: rs =>
-    let own0 := [sr, sw] ++ cfgFiles c
-    match cloexec sr rs with
-    | (c1, some e, rs) => failBefore (.pipe :: c1) own0 (.err e) {} (some (sr, sw)) rs
-    | (c1, none, rs) =>
-    match cloexec sw rs with
-    | (c2, some e, rs) => failBefore (.pipe :: c1 ++ c2) own0 (.err e) {} (some (sr, sw)) rs
-    | (c2, none, rs) =>
-    let calls := .pipe :: c1 ++ c2
-    -- setup_streams
-    if c.sout = .merge ∧ c.serr = .merge then failBefore calls own0 .logic {} (some (sr, sw)) rs else
-    if c.sin = .merge then failBefore calls own0 .logic {} (some (sr, sw)) rs else
-    let (ci, pin, ei, rs) := if c.sin = .pipe then streamPipe true rs else ([], none, none, rs)
-    let calls := calls ++ ci
-    let own1 := own0 ++ pipeFds pin
-    match ei with
-    | some e => failBefore calls own1 (.err e) { pin := pin } (some (sr, sw)) rs
-    | none =>
-    let (co, pout, eo, rs) := if c.sout = .pipe then streamPipe false rs else ([], none, none, rs)
-    let calls := calls ++ co
-    let own2 := own1 ++ pipeFds pout
-    match eo with
-    | some e => failBefore calls own2 (.err e) { pin := pin, pout := pout } (some (sr, sw)) rs
-    | none =>
-    let (ce, perr, ee, rs) := if c.serr = .pipe then streamPipe false rs else ([], none, none, rs)
-    let calls := calls ++ ce
-    let own3 := own2 ++ pipeFds perr
-    let p : Pipes := { pin := pin, pout := pout, perr := perr }
-    match ee with
-    | some e => failBefore calls own3 (.err e) p (some (sr, sw)) rs
-    | none =>
-    -- prep_exec: NUL bytes are found before anything is started
-    if c.nul then failBefore calls own3 (.err EINVAL) p (some (sr, sw)) rs else
-    match rs with
-    | [] => ⟨calls ++ [.fork], .stuck, p, some (sr, sw), []⟩
-    | .err e :: rs => failBefore (calls ++ [.fork]) own3 (.err e) p (some (sr, sw)) rs
-    | _ :: rs =>
-      -- parent after the fork: release the child ends, then the status write end, then read
-      let calls := calls ++ [.fork] ++ closeAll (ownedEnds c p) ++ [.close sw, .readStatus sr]
-      match rs.drop ((ownedEnds c p).length + 1) with
-      | .nbytes 0 _ :: rs' => ⟨calls ++ [.close sr], .ok, p, some (sr, sw), rs'⟩
-      | .nbytes 4 e :: rs' =>
-        -- the child could not exec: reap it (also when detached), then drop everything
-        ⟨calls ++ [.waitpid] ++ closeAll (sr :: parentEnds c p), .err e, p, some (sr, sw), rs'.drop 1⟩
-      | .nbytes _ _ :: rs' =>
-        ⟨calls ++ [.close sr] ++ (if c.detached then [] else [.waitpid]) ++ closeAll (parentEnds c p), .logic, p, some (sr, sw), rs'⟩
-      | .err e :: rs' =>
-        ⟨calls ++ [.close sr] ++ (if c.detached then [] else [.waitpid]) ++ closeAll (parentEnds c p), .err e, p, some (sr, sw), rs'⟩
-      | rs' => ⟨calls, .stuck, p, some (sr, sw), rs'⟩
+  match (acquireAll (stagesOf c) { owned := cfgFiles c } rs).fail with
+  | some r =>
+    ⟨(acquireAll (stagesOf c) { owned := cfgFiles c } rs).s.calls ++ closeAll (acquireAll (stagesOf c) { owned := cfgFiles c } rs).s.owned,
+     r, (acquireAll (stagesOf c) { owned := cfgFiles c } rs).s.pipes, (acquireAll (stagesOf c) { owned := cfgFiles c } rs).s.status,
+     (acquireAll (stagesOf c) { owned := cfgFiles c } rs).rest⟩
+  | none => afterFork c (acquireAll (stagesOf c) { owned := cfgFiles c } rs).s (acquireAll (stagesOf c) { owned := cfgFiles c } rs).rest
 
 /-- dropping the `Popen` of a successful launch -/
 def dropOk (c : Cfg) (p : Pipes) : List SCall :=
